@@ -114,3 +114,11 @@ Definition sresult (r : servo * list sev * result sret) : result sret := snd r.
 (* the object after a history of calls *)
 Definition srun (ops : list sop) (s : servo) : servo :=
   fold_left (fun st op => sstate (sstep st op)) ops s.
+
+(* everything a history emits, in order *)
+Fixpoint strace (ops : list sop) (s : servo) : list sev :=
+  match ops with
+  | [] => []
+  | op :: r => sevents (sstep s op) ++ strace r (sstate (sstep s op))
+  end.
+
